@@ -366,3 +366,41 @@ func H_C09_empty() {
 		vxrt.Assert(vxReadFile(path) == content, "C09:report-mode-writes-nothing")
 	}
 }
+
+// H_C07_unclean: the snapshot directory is given in a spelling that is not in clean form (a
+// trailing separator, a doubled separator, a detour through ..): what this run addressed there is
+// neither listed nor touched by Clean, in report mode and in clean mode, and a stale file next to
+// it is still found.
+func H_C07_unclean() {
+	vxrt.CI(false)
+	vxrt.EnvFixed("NO_COLOR", "1")
+	clean := vxrt.Bool("clean-mode")
+	if clean {
+		vxrt.EnvFixed("UPDATE_SNAPS", "clean")
+	} else {
+		vxrt.EnvFixed("UPDATE_SNAPS", "")
+	}
+	vxrt.Flag("test.run", "")
+	vxrt.Flag("test.count", "1")
+	base := vxrt.Dir()
+	real := base + "/pkg/__snapshots__"
+	vxOs_MkdirAll(base + "/pkg/other")
+	spelled := []string{base + "/pkg/__snapshots__/", base + "/pkg//__snapshots__", base + "/pkg/other/../__snapshots__", base + "/pkg/./__snapshots__"}[vxrt.Choice("spelling", 4)]
+	vxWriteFile(real+"/f.snap", vxFrame("TestA - 1", "a")+vxFrame("TestA - 2", "stale entry"))
+	vxWriteFile(real+"/old.snap", vxFrame("TestOld - 1", "stale file"))
+	c := WithConfig(Dir(spelled), Filename("f"))
+	cs := WithConfig(Dir(spelled))
+	t := vxNewT("TestA")
+	c.MatchSnapshot(t, "a")
+	cs.MatchStandaloneSnapshot(t, "s")
+	t.end()
+	vxrt.Assert(len(t.errors) == 0, "setup:passes")
+	Clean(nil)
+	out := vxrt.Stdout()
+	vxrt.Assert(!strings.Contains(out, "f.snap\n") && !strings.Contains(out, "TestA_1.snap"), "C07:addressed-file-not-listed")
+	vxrt.Assert(!strings.Contains(out, vxBullet+"TestA - 1\n"), "C07:addressed-entry-not-listed")
+	got, _, err := vxRefPrev("[TestA - 1]", real+"/f.snap")
+	vxrt.Assert(err == nil && got == "a" && vxReadFile(real+"/TestA_1.snap") == "s", "C07:addressed-entry-value-unchanged")
+	vxrt.Assert(strings.Contains(out, vxBullet+"TestA - 2\n") && strings.Contains(out, "old.snap\n"), "C09:stale-entry-reported")
+	vxrt.Assert((vxReadFile(real+"/old.snap") == "<missing>") == clean, "C09:stale-file-removed-iff-clean-mode")
+}
